@@ -59,6 +59,10 @@ def deep_rulesets(tier):
         out.append(({'A': long}, [(1.0, ['A'])]))
         out.append(({'A': long, 'B': [0.6, 0.4]}, [(0.5, ['A']), (0.3, ['B', 'A']), (0.2, ['B'])]))
         out.append(({'A': long, 'B': [0.6, 0.4]}, [(0.6, ['A', 'B']), (0.4, ['B'])]))
+    # the same long transition twice in one structure: late in the run the restore walk is deeper than the transition is long
+    m = 700
+    tot = m * (m + 1) / 2.0
+    out.append(({'A': [(m - i) / tot for i in range(m)]}, [(1.0, ['A', 'A'])]))
     return out
 
 
@@ -129,6 +133,10 @@ def check_resumed(mult, probs, p, stream):
 def deep_nodes(nodes):
     """History-graph nodes explored on a deep ruleset: the first ones, the last twelve, and 24 spread evenly (every node would be quadratic)."""
     n = len(nodes)
+    if n > 50000:
+        # a grid of several hundred thousand pre-terminals: the last twelve nodes and three more in the last two per cent (where the walk is deepest)
+        idx = set(range(n - 12, n)) | {n - n // 50, n - n // 100, n - n // 200}
+        return [nodes[i] for i in sorted(idx)]
     idx = set(range(0, min(n, 3))) | set(range(max(0, n - 12), n)) | set(int(i * (n - 1) / 23.0) for i in range(24))
     return [nodes[i] for i in sorted(idx)]
 
